@@ -419,6 +419,25 @@ class ProgGen:
     self.emit("%s: %s = %s" % (self.kname(), self.rich_annotation(), self.wrong_value()))
     self.feat("signature-with-defaults", "rich-annotations", "optional-of-container")
 
+  def multi_binding_block(self):
+    """One variable with several bindings at ONE CFG node (the loop variable over a display of mixed types) and uses
+    that log one error PER BINDING on the SAME line: errors are sorted by (file, line) only, so within such a line the
+    report follows the order in which the typegraph hands the bindings out (id order by construction; a pointer- or
+    hash-ordered container there shows up only after heap churn or under another hash seed)."""
+    r = self.r
+    pool = ["1", "'s'", "2.5", "None", "b'x'", "[1]", "(1,)", "{1: 2}", "{1}", "True", "1j"] + [c + "()" for c in self.classes[:4]]
+    vals = r.sample(pool, min(len(pool), r.randint(4, 8)))
+    a = self.aname()
+    v = self.kname()
+    self.emit("for %s in [%s]:" % (v, ", ".join(vals)),
+              "  %s.%s" % (v, a),
+              "  %s.%s(%s)" % (v, self.aname(), self.scalar()),
+              "  %s = %s %s %s" % (self.kname(), v, r.choice(["+", "-", "*", "[", "@"]).replace("[", "<<"), r.choice(["1", "'s'", v])))
+    f = self.fname()
+    self.emit("def %s(%s):" % (f, "x"), "  return x.%s" % self.aname(),
+              "; ".join("%s(%s)" % (f, val) for val in vals[:5]))
+    self.feat("multi-binding-same-line-errors")
+
   def misc_error_block(self):
     r = self.r
     k = r.random()
@@ -451,7 +470,7 @@ class ProgGen:
     self.header()
     self.consts_block()
     # every program gets the two kinds of surface; the rest is sampled
-    must = [self.literal_block, self.union_func_block, self.class_block]
+    must = [self.literal_block, self.union_func_block, self.class_block, self.multi_binding_block]
     if r.random() < 0.8:
       must.append(self.newtype_block)
     optional = [self.namedtuple_block, self.typeddict_block, self.generic_block, self.protocol_overload_block,
